@@ -389,11 +389,30 @@ func NewTypeConverter(typ reflect.Type) (TypeConverter, error) {
 	return createTypeConverter(typ)
 }
 
+// convertersInProgress counts, for the types whose converter is being built,
+// how often the construction has come back to them. The converter of a type is
+// built from the converters of its parts, and a type can be a part of itself.
+// Where that goes through a struct (type Tree struct{ Kids []Tree }) the
+// registry of struct types ends the recursion when it meets the struct the
+// second time; a type that is met a third time is made of itself without a
+// struct in between (type Tree []Tree), and nothing would end that.
+// Guarded by goTypeMutex.
+var convertersInProgress = map[reflect.Type]int{}
+
 // The caller must hold the goTypeMutex lock.
 func createTypeConverter(typ reflect.Type) (TypeConverter, error) {
 	if conv, ok := typeConverters[typ]; ok {
 		return conv, nil
 	}
+	if convertersInProgress[typ] >= 2 {
+		return nil, errz.TypeErrorf("type error: unsupported recursive type: %s", typ)
+	}
+	convertersInProgress[typ]++
+	defer func() {
+		if convertersInProgress[typ]--; convertersInProgress[typ] == 0 {
+			delete(convertersInProgress, typ)
+		}
+	}()
 	conv, err := getTypeConverter(typ)
 	if err != nil {
 		return nil, err
